@@ -178,6 +178,80 @@ def _replay_pair(role, template):
     return (client, server) if role == "client" else (server, client)
 
 
+def tp_ob(role):
+    """the peer's transport parameters: the decoder yields any parameter set or ValueError (C17.tp);
+    applying them may only raise what receive_datagram() converts into a close"""
+    name = "c05_fresh_%s" % role
+
+    def prep():
+        _quiet()
+        cm.prepare(name, cm.connected_template(role))
+
+    holder = {}
+
+    def fake_pull(buf):
+        if holder["malformed"]:
+            raise ValueError("Transport parameter length does not match")
+        return holder["params"]
+
+    def choose_params(conn):
+        import aioquic.quic.packet as pk
+
+        holder["malformed"] = sx.Bool("tp_malformed")
+        p = pk.QuicTransportParameters()
+        for f in ("initial_max_data", "initial_max_stream_data_bidi_local", "initial_max_streams_bidi", "max_datagram_frame_size"):
+            setattr(p, f, sx.Int(f, 0, V62))
+        for f in ("max_idle_timeout", "max_udp_payload_size", "ack_delay_exponent", "max_ack_delay", "active_connection_id_limit"):
+            if sx.Bool("has_" + f):
+                setattr(p, f, sx.Int(f, 0, V62))
+        expected = {"original_destination_connection_id": conn._original_destination_connection_id, "initial_source_connection_id": conn._remote_initial_source_connection_id, "retry_source_connection_id": conn._retry_source_connection_id}
+        for f in expected:
+            c = sx.Choice("cid_" + f, 3)
+            if c == 1:
+                setattr(p, f, sx.Bytes(f, 4, 4))
+            elif c == 2:
+                setattr(p, f, expected[f])
+        if sx.Bool("has_srt"):
+            p.stateless_reset_token = bytes(16)
+        if sx.Bool("has_vi"):
+            p.version_information = pk.QuicVersionInformation(chosen_version=sx.Int("chosen", 1, (1 << 32) - 1), available_versions=[sx.Int("av%d" % i, 1, (1 << 32) - 1) for i in range(sx.Choice("nav", 3))])
+        holder["params"] = p
+        return p
+
+    def run():
+        from aioquic import tls
+        from aioquic.buffer import Buffer, BufferReadError
+        from aioquic.quic.connection import QuicConnectionError
+
+        _quiet()
+        if sx.E.mode == "replay":
+            client, server = cm.make_pair()
+            conn = client if role == "client" else server
+        else:
+            conn = cm.get(name, role).conn
+        conn._crypto_packet_version = conn._version
+        conn._crypto_frame_type = 6
+        params = choose_params(conn)
+        data = b"\x00"
+        if sx.E.mode == "replay":
+            import aioquic.quic.packet as pk
+
+            if holder["malformed"]:
+                data = b"\x0b\x02\x0a\x00"  # declared length disagrees with the value
+            else:
+                b = Buffer(capacity=1024)
+                pk.push_quic_transport_parameters(b, params)
+                data = b.data
+        conn.tls.received_extensions = [(tls.ExtensionType.QUIC_TRANSPORT_PARAMETERS, data)] if not sx.Bool("no_tp_extension") else []
+        try:
+            conn._alpn_handler("h3")
+        except (QuicConnectionError, tls.Alert, BufferReadError):
+            pass
+        sx.reached()
+
+    return prep, run, fake_pull
+
+
 FRAME_TYPES = [0x00, 0x01, 0x02, 0x03, 0x04, 0x05, 0x06, 0x07, 0x08, 0x09, 0x0A, 0x0B, 0x0C, 0x0D, 0x0E, 0x0F, 0x10, 0x11, 0x12, 0x13, 0x14, 0x15, 0x16, 0x17, 0x18, 0x19, 0x1A, 0x1B, 0x1C, 0x1D, 0x1E, 0x30, 0x31, 0x21]
 
 
@@ -192,4 +266,7 @@ def obligations(tier):
               for rep in ([False, True] if ft in REPEAT and (T or ft not in HEAVY_TWICE) else [False]):
                 prep, run = frame_ob(role, template, ft, rep)
                 obs.append(Ob("C05.frame.%s.%s.0x%02x%s" % (role, template, ft, ".twice" if rep else ""), run, cm.conn_shims, enc + [Q + "_handle_*_frame (type 0x%02x)" % ft], bounds="1-RTT packet with one frame of type 0x%02x (twice for state-sharing types, or followed by PING): every varint field over [0, 2^62) (8-byte encoding), byte fields of length 0/2 (CID 0/1/8/20/21) with symbolic content and declared length honest / one too long / 2^62-1, truncated at 3 cut points; delivered to a %s %s endpoint; then transmit/timer/event calls until termination" % (ft, template, role), prepare=prep, budget_s=1500 if T else 250, max_decisions=1500, stubs=["CryptoPair -> transparent", "tls.Context -> nondeterministic stub"]))
+    for role in ("client", "server"):
+        prep, run, fake = tp_ob(role)
+        obs.append(Ob("C05.tp.%s" % role, run, (lambda fake=fake: cm.conn_shims(extra=[("pull_quic_transport_parameters", fake)])), [Q + "_alpn_handler", Q + "_parse_transport_parameters"], bounds="every transport-parameter set (each integer parameter absent or any value in [0,2^62), each CID parameter absent / arbitrary / the expected value, version_information with <= 2 versions) or a decoding failure", prepare=prep, budget_s=900 if T else 250, max_decisions=900, stubs=["pull_quic_transport_parameters -> any parameter set or ValueError (decided separately by C17.tp.*)"]))
     return obs
